@@ -415,6 +415,13 @@ fn guided_walk(prop: &str, rng: &mut Rng, signs: &[(PageFlipStyle, u16)], steps:
         } else {
             vec![w.arbitrary()]
         };
+        // now and then the same messages arrive undecoded: `Unknown` wrapping the very frame the message would travel
+        // in (what a relay that does not interpret traffic hands on) — to a sign that is an unknown message: ignored
+        let msgs: Vec<Message<'static>> = if w.rng.chance(8) {
+            msgs.into_iter().map(|m| if matches!(m, Message::Unknown(_)) { m } else { Message::Unknown(flipdot_core::Frame::from(m)) }).collect()
+        } else {
+            msgs
+        };
         for m in msgs {
             n += 1;
             line.push(' ');
@@ -551,6 +558,50 @@ fn guided_walk(prop: &str, rng: &mut Rng, signs: &[(PageFlipStyle, u16)], steps:
     (line, failure)
 }
 
+/// The same walk on a bus that is rebuilt from clones of its signs at a few points, and on a bus built from signs
+/// that were driven directly through a prefix of the walk (case `i` is the plain walk `vline`).
+fn walk_variants(prop: &str, rng: &mut Rng, out: &mut Out, vline: &str, i: usize, nsigns: usize) {
+    let signs: Vec<()> = vec![(); nsigns];
+        // the same walk on a bus that is rebuilt from clones of its signs at a few points, and on a bus built
+        // from signs that were driven directly through a prefix of the walk: a bus is nothing but its signs,
+        // so every observation must be the same (state kept by the bus object itself would be lost here)
+        let toks: Vec<&str> = vline.split(' ').collect();
+        let msgs = &toks[2..];
+        if msgs.len() >= 2 {
+            let mut with_rebuild: Vec<String> = toks[..2].iter().map(|t| t.to_string()).collect();
+            let mut cuts: Vec<usize> = (0..1 + rng.below(3)).map(|_| rng.below(msgs.len() as u64) as usize).collect();
+            cuts.sort();
+            for (k, m) in msgs.iter().enumerate() {
+                if cuts.contains(&k) {
+                    with_rebuild.push("#rebuild".into());
+                }
+                with_rebuild.push(m.to_string());
+            }
+            let j = out.case(with_rebuild.join(" "), true);
+            out.stat("vbus.rebuilt-from-clones");
+            if out.impls[j].replace("!solo-differs", "") != out.impls[i].replace("!solo-differs", "") {
+                out.fail(j, format!("{} rebuilding the bus from clones of its signs changed what the signs do", if prop == "C12" { "C13" } else { prop }));
+            }
+            let k = 1 + rng.below(msgs.len() as u64 - 1) as usize;
+            let mut pre: Vec<String> = toks[..2].iter().map(|t| t.to_string()).collect();
+            for m in &msgs[..k] {
+                for si in 0..signs.len() {
+                    pre.push(format!("@{}:{}", si, m));
+                }
+            }
+            for m in &msgs[k..] {
+                pre.push(m.to_string());
+            }
+            let j = out.case(pre.join(" "), true);
+            out.stat("vbus.built-from-driven-signs");
+            let orig: Vec<&str> = out.impls[i].split(' ').collect();
+            let got: Vec<&str> = out.impls[j].split(' ').collect();
+            if !out.impls[i].contains("PANIC") && !out.impls[j].contains("!solo") && (orig.len() < k || got != orig[k..]) {
+                out.fail(j, format!("{} a bus built from signs that were driven directly behaves differently from the bus that saw the same messages", if prop == "C12" { "C13" } else { prop }));
+            }
+        }
+}
+
 fn run_walks(prop: &str, rng: &mut Rng, out: &mut Out, nwalks: usize, steps: usize, max_signs: u64) {
     for _ in 0..nwalks {
         let ns = 1 + rng.below(max_signs) as usize;
@@ -570,7 +621,12 @@ fn run_walks(prop: &str, rng: &mut Rng, out: &mut Out, nwalks: usize, steps: usi
             .map(|a| (if rng.chance(50) { PageFlipStyle::Manual } else { PageFlipStyle::Automatic }, *a))
             .collect();
         let (line, failure) = guided_walk(prop, rng, &signs, steps, out);
+        let variants = rng.chance(34);
+        let vline = line.clone();
         let i = out.case(line, true);
+        if variants {
+            walk_variants(prop, rng, out, &vline, i, signs.len());
+        }
         if out.impls[i].contains("PANIC") {
             out.fail(i, "C12 a virtual sign / bus panicked (see case)".into());
         } else if out.impls[i].contains("!solo") {
@@ -622,6 +678,7 @@ pub fn c12(thorough: bool, rng: &mut Rng, out: &mut Out) {
     let (nw, steps) = if thorough { (60_000, 150) } else { (1_500, 60) };
     run_walks("C12", rng, out, nw, steps, 3);
     extreme_geometries("C12", thorough, out);
+    many_pages("C12", thorough, out);
     if thorough {
         // 70000 accepted chunks: the chunk counter must not overflow
         let mut l = format!("vbus M,0003 RO,0003,0 SD,0000,{} CS,0001 RO,0003,1", to_hex(&tiny_cfg(2, 8, false)));
@@ -761,6 +818,35 @@ pub fn extreme_geometries(prop: &str, thorough: bool, out: &mut Out) {
     }
 }
 
+/// Transfers of very many pages in one go (around every multiple of 256), then the
+/// full show / load-next cycle and a second, small transfer: page counts are not bytes.
+pub fn many_pages(prop: &str, thorough: bool, out: &mut Out) {
+    let mut counts: Vec<usize> = vec![255, 256, 257, 512, 1024];
+    if thorough {
+        counts.extend_from_slice(&[511, 513, 768, 2048, 4096]);   // (every message re-observes all pages: cost is quadratic)
+    }
+    for n in counts {
+        for style in ["M", "A"] {
+            let mut line = format!("vbus {},0005 RO,0005,0 SD,0000,{} CS,0001 RO,0005,1", style, to_hex(&tiny_cfg(2, 8, false)));
+            for k in 0..n {
+                let mut page = Page::new(PageId((k % 256) as u8), 2, 8);
+                page.set_pixel((k % 2) as u32, (k % 8) as u32, true);
+                line.push_str(&format!(" SD,0000,{}", to_hex(page.as_bytes())));
+            }
+            line.push_str(&format!(" CS,{:04X} QS,0005 PC,0005 QS,0005", n));
+            for _ in 0..3 {
+                line.push_str(" RO,0005,2 QS,0005 QS,0005 RO,0005,3 QS,0005 QS,0005");
+            }
+            line.push_str(&format!(" RO,0005,1 SD,0000,{} CS,0001 QS,0005 PC,0005 RO,0005,3 QS,0005 QS,0005 GB,0005 QS,0005", to_hex(Page::new(PageId(9), 2, 8).as_bytes())));
+            let i = out.case(line, true);
+            out.stat("vsign.many-pages");
+            if out.impls[i].contains("PANIC") {
+                out.fail(i, format!("{} a virtual sign holding {} pages panicked during a legal session", prop, n));
+            }
+        }
+    }
+}
+
 /// Configuration blocks that carry a KNOWN type code but a geometry that disagrees with the catalogue (blank,
 /// partly blank, one off): the sign's size is what the geometry bytes say, so a page of the catalogued size
 /// must not be stored unless the two happen to need the same number of bytes, and whatever is stored has the
@@ -849,7 +935,11 @@ pub fn c14(thorough: bool, rng: &mut Rng, out: &mut Out) {
             .map(|a| (if rng.chance(50) { PageFlipStyle::Manual } else { PageFlipStyle::Automatic }, *a))
             .collect();
         let (line, failure) = guided_walk("C14", rng, &signs, steps, out);
+        let vline = line.clone();
         let i = out.case(line, ns >= 2);
+        if rng.chance(34) {
+            walk_variants("C14", rng, out, &vline, i, ns);
+        }
         out.stat(&format!("bus.signs.{}", ns));
         if out.impls[i].contains("PANIC") {
             out.fail(i, "C12 a virtual sign / bus panicked (see case)".into());
